@@ -129,3 +129,58 @@ def decode_bytes(code, have, ext):
         op = code[o]
         out.append((o, op, b_arg(code, k, have, ext) if op >= have else None))
     return out
+
+
+# ---------------------------------------------------------------- one *logical* instruction: EXTENDED_ARG prefixes + instruction
+@spec(lemma=lambda r, code, off, j: And(r >= 0, r % 256 == 0))
+def g_ext(code: Bytes, off: int, j: int) -> int:
+    """word code: extended_arg in effect at the j-th word of a group that starts at byte offset off
+    (words off, off+2, ... off+2(j-1) are EXTENDED_ARG)"""
+    if j <= 0:
+        return 0
+    return (code[off + 2 * j - 1] + g_ext(code, off, j - 1)) * 256
+
+
+@spec(lemma=lambda r, code, off, have, ext: r >= 0)
+def g_len(code: Bytes, off: int, have: int, ext: int) -> int:
+    """word code: number of words of the logical instruction starting at off (0 past the end)"""
+    if off >= len(code):
+        return 0
+    if off < 0:
+        return 0
+    if code[off] == ext and code[off] >= have:
+        return 1 + g_len(code, off + 2, have, ext)
+    return 1
+
+
+@spec(lemma=lambda r, code, off, j: And(r >= 0, r % 65536 == 0))
+def gb_ext(code: Bytes, off: int, j: int) -> int:
+    """byte code (< 3.6): extended_arg at the j-th instruction of a group starting at off (3-byte EXTENDED_ARGs)"""
+    if j <= 0:
+        return 0
+    return (code[off + 3 * j - 2] + code[off + 3 * j - 1] * 256 + gb_ext(code, off, j - 1)) * 65536
+
+
+@spec(lemma=lambda r, code, off, have, ext: r >= 0)
+def gb_len(code: Bytes, off: int, have: int, ext: int) -> int:
+    if off >= len(code):
+        return 0
+    if off < 0:
+        return 0
+    if code[off] == ext and code[off] >= have:
+        return 1 + gb_len(code, off + 3, have, ext)
+    return 1
+
+
+@spec(lemma=lambda r, code, off, have, ext: Implies(off >= 0, r >= off))
+def gb_end(code: Bytes, off: int, have: int, ext: int) -> int:
+    """byte code: offset just after the logical instruction starting at off"""
+    if off >= len(code):
+        return off
+    if off < 0:
+        return off
+    if code[off] >= have:
+        if code[off] == ext:
+            return gb_end(code, off + 3, have, ext)
+        return off + 3
+    return off + 1
